@@ -34,6 +34,22 @@ func tinyLoop(lat, lng float64) [][2]float64 {
 	return [][2]float64{{lat + 1e-9, lng + 1e-9}, {lat + 1e-9, lng + 3e-9}, {lat + 3e-9, lng + 2e-9}}
 }
 
+func manyMembers(n int) []Member {
+	ms := make([]Member, n)
+	for i := range ms {
+		ms[i] = Member{Role: roleVocab[i%3], ID: ID{0, nsNode, uint64(1 + i%2)}}
+	}
+	return ms
+}
+
+func manyTags(n int) []Tag {
+	ts := make([]Tag, 0, n+1)
+	for i := 0; i < n; i++ {
+		ts = append(ts, str(string(rune('a'+i%3)), string(rune('x'+i%3))))
+	}
+	return append(ts, Tag{K: "point", V: Val{Kind: 'p', P: LL{515500000, -1000000}}})
+}
+
 func corpus() []witness {
 	square := []Feat{
 		pt(nsNode, 1, 515000000, -1200000), pt(nsNode, 2, 515000000, -1100000),
@@ -78,8 +94,11 @@ func corpus() []witness {
 			Feat{ID: ID{2, "custom", 21}, Polys: []Poly{finishPoly(Poly{Raw: [][][2]float64{sq(51.8, -0.12, 0.0009), tinyLoop(51.8, -0.10), sq(51.8, -0.08, 0.0009), sq(51.8, -0.08, 0.0003)}})}},
 			Feat{ID: ID{2, "custom", 22}, Polys: []Poly{finishPoly(Poly{Raw: [][][2]float64{sq(51.9, -0.12, 0.0009), tinyLoop(51.9, -0.10)}}), {Paths: []ID{{1, nsWay, 10}}}}},
 			loop)},
-		// a point whose record (and scratch bucket) is longer than 64 KB
-		{"heavy-point", with(pt(nsNode, 70, 515400000, -1000000, str("note", strings.Repeat("0123456789abcdef", 4400))))},
+		// a string longer than 64 KB (an item of the string table)
+		{"heavy-string", with(pt(nsNode, 70, 515400000, -1000000, str("note", strings.Repeat("0123456789abcdef", 4400))))},
+		// a point whose record is longer than 64 KB (34 000 short tags): the scratch bucket, the buffers of
+		// combinePoints and the final record all cross 2^16
+		{"heavy-point-record", with(Feat{ID: ID{0, nsNode, 71}, Tags: manyTags(34000)}, Feat{ID: ID{3, nsRel, 90}, Members: manyMembers(300)})},
 		// KNOWN FINDING fid-tag-value: a tag whose value is a single feature id has no value type in the
 		// index; reading it back panics while the search index is built (fatal)
 		{"feature-id-tag-value", with(pt(nsNode, 9, 515200000, -1000000, Tag{K: "b6:ref", V: Val{Kind: 'f', F: ID{0, nsNode, 1}}}))},
